@@ -1089,6 +1089,10 @@ class Models:
     # =============================================================== Num attrs
     def num_attr(self, v: Num, attr, node):
         if attr in ("numerator", "denominator"):
+            cv = self.st.norm(v.rf)
+            if cv.is_const() and v.kind != "float":
+                q_ = cv.const_value()
+                return self.num_const(q_.numerator if attr == "numerator" else q_.denominator, "int")
             return Num(self.ufn(attr, v.rf), "int")
         if attr in ("magnitude", "precision"):
             kind = v.kind
